@@ -64,6 +64,10 @@ def strategy(tier):
             if shifted:
                 m["large_limits"] = base
         su = draw(S.stochastic_setup(m, x_hi=draw(st.sampled_from([3, 8, 40]))))
+        if m.get("large_limits") and su["t0"] > 100:
+            # populations of 3e5 make steps of 1e-12 time units, which a clock reading 2020 cannot resolve (2020 + 1e-13 == 2020
+            # in double precision): such a step "does not advance time" on any tree
+            su = dict(su, t0=1.0)
         algo = draw(st.sampled_from(["exact", "tau", "pre_tau", "pre_tau"]))
         drift = None
         if algo != "exact" and draw(st.integers(0, 2)) == 0:
@@ -122,7 +126,7 @@ def oracle(case, rec):
         m = dict(m, odes=[{"state": drift["state"], "expr": ir.C(drift["rate"])}])
     model, order = stoch.prepare(m, su)
     exact = algo == "exact"
-    model.pre_tau = case["pre_tau"] if algo == "pre_tau" else None
+    model.pre_tau = case["pre_tau"] / su.get("clock", 1.0) if algo == "pre_tau" else None
     if case["epsilon"] is not None:
         model._epsilon = case["epsilon"]
     V = stoch.V_int(m, su["theta"], order)
